@@ -1,8 +1,9 @@
 """C04 — debugging information entries are decoded into exactly the encoded tree.  Streams:
 
   ast : abstract forests (1-4 units in .debug_info of mixed version 2-5 / DWARF32-64 / address size / v5 unit type,
-        0-2 type units in .debug_types, 1-3 abbreviation tables shared or per unit with arbitrary codes and unknown
-        tag/attribute numbers, trees to depth 5 (quick) / 6, every attribute form with boundary operands, padded
+        0-3 type units in .debug_types (sometimes carrying the same signature: the last one wins), 1-3 abbreviation
+        tables shared or per unit, each placed anywhere in .debug_abbrev (stray bytes in front of a table) with arbitrary
+        codes and unknown tag/attribute numbers, trees to depth 5 (quick) / 6, every attribute form with boundary operands, padded
         LEB128 everywhere, DW_FORM_indirect chains, implicit_const, DW_AT_sibling in every reference form,
         unit-relative / section-relative / signature references, index forms with their base attributes and tables)
         -> Lean SPEC ENCODER -> DWARFInfo built from DebugSectionDescriptors -> iter_CUs / iter_TUs, iter_DIEs,
@@ -17,7 +18,7 @@ from common import run_impl, canon, hx, rnd_uint, rnd_bytes, classify_exception,
 sys.setrecursionlimit(50000)
 
 RULE = ('ast: units/tables/trees/operands drawn from boundary pools (see module docstring); every form code of DWARF 5 '
-        'table 7.6 plus the GNU alt forms in every version; LEB128 lengths = minimal + 0..3; raw: 1-3 byte substitutions, '
+        'table 7.6 plus the GNU alt forms and the legacy DW_FORM_ref (0x02) in every version; LEB128 lengths = minimal + 0..3; raw: 1-3 byte substitutions, '
         'truncations and extensions of the encoded sections. Non-trivial = distinct request; every ast case decodes '
         'at least one unit header, one abbreviation table and one entry.')
 ASSUMPTIONS = ['io.BytesIO read/seek/tell semantics', 'dict insertion order, bisect.bisect_right, list.insert',
@@ -34,7 +35,7 @@ OFFS = lambda fmt: fmt // 8
 
 def form_cls(form, fmt, asz, ver):
     off = OFFS(fmt)
-    fixed = {0x01: asz, 0x05: 2, 0x06: 4, 0x07: 8, 0x0b: 1, 0x0c: 1, 0x0e: off, 0x10: asz if ver == 2 else off, 0x11: 1,
+    fixed = {0x01: asz, 0x02: 4, 0x05: 2, 0x06: 4, 0x07: 8, 0x0b: 1, 0x0c: 1, 0x0e: off, 0x10: asz if ver == 2 else off, 0x11: 1,
              0x12: 2, 0x13: 4, 0x14: 8, 0x17: off, 0x1c: 4, 0x1d: off, 0x1f: off, 0x20: 8, 0x24: 8, 0x25: 1, 0x26: 2,
              0x27: 3, 0x28: 4, 0x29: 1, 0x2a: 2, 0x2b: 3, 0x2c: 4, 0x1f20: off, 0x1f21: off}
     if form in fixed: return ('fixed', fixed[form])
@@ -50,10 +51,10 @@ def form_cls(form, fmt, asz, ver):
     return None
 
 
-ALL_FORMS = [0x01, 0x03, 0x04, 0x05, 0x06, 0x07, 0x08, 0x09, 0x0a, 0x0b, 0x0c, 0x0d, 0x0e, 0x0f, 0x10, 0x11, 0x12, 0x13, 0x14,
+ALL_FORMS = [0x01, 0x02, 0x03, 0x04, 0x05, 0x06, 0x07, 0x08, 0x09, 0x0a, 0x0b, 0x0c, 0x0d, 0x0e, 0x0f, 0x10, 0x11, 0x12, 0x13, 0x14,
              0x15, 0x16, 0x17, 0x18, 0x19, 0x1a, 0x1b, 0x1c, 0x1d, 0x1e, 0x1f, 0x20, 0x21, 0x22, 0x23, 0x24, 0x25, 0x26, 0x27,
              0x28, 0x29, 0x2a, 0x2b, 0x2c, 0x1f20, 0x1f21]
-UNIT_REFS = [0x11, 0x12, 0x13, 0x14, 0x15]
+UNIT_REFS = [0x11, 0x12, 0x13, 0x14, 0x15, 0x02]        # 0x02: the legacy DW_FORM_ref (4 bytes, unit-relative)
 STRX = [0x1a, 0x25, 0x26, 0x27, 0x28]
 ADDRX = [0x1b, 0x29, 0x2a, 0x2b, 0x2c]
 AT_SIBLING, AT_TYPE, AT_IMPORT, AT_SPEC, AT_SIGNATURE = 0x01, 0x49, 0x18, 0x47, 0x69
@@ -151,7 +152,7 @@ def gen_table(rng, quick):
         names = set()
         specs = []
         if children and rng.random() < 0.45:
-            f = rng.choice([0x11, 0x12, 0x12, 0x13, 0x13, 0x14, 0x15, 0x15, 0x10, 0x10, 0x16, 0x16])
+            f = rng.choice([0x11, 0x12, 0x12, 0x13, 0x13, 0x14, 0x15, 0x15, 0x10, 0x10, 0x16, 0x16, 0x02])
             specs.append({'name': AT_SIBLING, 'form': f})
             names.add(AT_SIBLING)
         for _ in range(nspec):
@@ -176,7 +177,14 @@ def gen_table(rng, quick):
                 s['cl'] = sleb_min_len(c) + rng.choice([0, 0, 1, 2])
         decls.append({'code': code, 'tag': tag, 'children': children, 'specs': specs, 'cl': pad_len(rng, code),
                       'tl': pad_len(rng, tag)})
-    return {'decls': decls, 'end_len': rng.choice([1, 1, 1, 2, 3])}
+    t = {'decls': decls, 'end_len': rng.choice([1, 1, 1, 2, 3])}
+    # "placed anywhere": bytes no unit refers to in front of the table (alignment padding, a table of a discarded unit,
+    # garbage); the units' debug_abbrev_offset is the offset behind them
+    r = rng.random()
+    if r < 0.35:
+        t['gap'] = hx(rng.choice([b'\0', b'\0' * 3, b'\xff' * 2, rnd_bytes(rng, rng.choice([1, 4, 7, 130])),
+                                  bytes([1, 0x11, 1, 3, 8, 0, 0, 0])]))
+    return t
 
 
 def top_decl(rng, table, code):
@@ -323,7 +331,7 @@ def gen_case(rng, quick):
     ntab = rng.choice([1, 1, 2, 3])
     tables = [gen_table(rng, quick) for _ in range(ntab)]
     nunits = rng.choice([1, 1, 2, 2, 3, 4])
-    ntus = rng.choice([0, 0, 0, 1, 2])
+    ntus = rng.choice([0, 0, 0, 1, 2, 2, 3])
     maxdepth = rng.choice([1, 2, 3, 4, 5] if quick else [1, 2, 3, 4, 5, 6])
     fan = 3 if quick else 5
     units, tus = [], []
@@ -345,6 +353,8 @@ def gen_case(rng, quick):
                  'type_off': 0, '_fmt': fmt}
             if which == 'info' and ver == 5:
                 u['utype'] = rng.choice([1, 1, 2, 3, 4, 5, 6])
+            if which == 'types' and lst and rng.random() < 0.25:
+                u['id8'] = rng.choice(lst)['id8']       # a signature carried by several type units: the dict keeps the last
             lst.append(u)
     return le, rng.choice([4, 8]), tables, units, tus, w
 
@@ -412,7 +422,7 @@ def patch(rng, layout, units, tus):
 
 
 # ------------------------------------------------------------------------- known finding: sig8 -> v5 type unit
-REF_CODES = (0x11, 0x12, 0x13, 0x14, 0x15, 0x10, 0x20)     # the final forms get_DIE_from_attribute is asked about
+REF_CODES = (0x11, 0x12, 0x13, 0x14, 0x15, 0x02, 0x10, 0x20)     # the final forms get_DIE_from_attribute is asked about
 
 
 def v5_type_sigs(units):
@@ -620,6 +630,10 @@ def check_case(ctx, stream, rq, r):
     types = bytes.fromhex(r['types']) if (rq.get('tus') or rq.get('types_present')) else None
     impl = impl_world(rq['le'], rq['dasz'], info, abbrev, types, rq['secs'])
     out.case(rq)
+    if r['wf'] != r['wf_old']:
+        # `wf` is Spec.C04.wfForestB (the hypothesis of debug_info_exact / debug_types_exact); `wf_old` the part-by-part
+        # predicate the check used before the forest description existed.  They must describe the same inputs.
+        raise RuntimeError('C04: wfForestB = %r but the part-wise well-formedness = %r on %r' % (r['wf'], r['wf_old'], str(rq)[:400]))
     if r['wf']:
         out.count(stream + ':wf')
         for sl in sig8_v5_slots(rq).values():
@@ -685,6 +699,13 @@ def stats(ctx, rq, r):
     out = ctx.out
     out.count('units', len(rq['units']))
     out.count('tus', len(rq['tus']))
+    out.count('tables', len(rq['abbrevs']))
+    out.count('tables:with-gap', sum(1 for t in rq['abbrevs'] if t.get('gap')))
+    used = [u['table'] for u in rq['units'] + rq['tus']]
+    out.count('tables:shared-by-several-units', sum(1 for t in set(used) if used.count(t) > 1))
+    out.count('abbrev-offset:nonzero', sum(1 for u in rq['units'] + rq['tus'] if r.get('table_offs', [0] * 9)[u['table']] != 0))
+    sigs = [u['id8'] for u in rq['tus']]
+    out.count('tus:duplicate-signature', len(sigs) - len(set(sigs)))
     for u in rq['units'] + rq['tus']:
         out.count('cfg:v%d/%d/a%d' % (u['version'], 64 if u['fmt64'] else 32, u['asz']))
         if 'utype' in u:
